@@ -214,10 +214,14 @@ func run(ci any) (res obs.Result) {
 		input := append(append([]byte(nil), enc...), c.Rest...)
 		want := c.V.Abs()
 		var first resp.Outcome
+		minAlloc := ^uint64(0)
 		for k, sizes := range c.Sizes {
 			o := resp.Decode(input, c.Buf, sizes)
 			if k == 0 {
 				first = o
+			}
+			if o.Alloc < minAlloc { // TotalAlloc also sees what the runtime allocates meanwhile: take the quietest run
+				minAlloc = o.Alloc
 			}
 			switch {
 			case o.Status == "panic":
@@ -239,7 +243,7 @@ func run(ci any) (res obs.Result) {
 		}
 		if c.V.Bytes()+3*len(input) <= resp.MaxCoqBytes {
 			res.Coq = obs.App("CDec", obs.N(uint64(c.Buf)), obs.Some("("+c.V.Coq()+", "+hbytes(c.Rest)+")"), resp.HB(input),
-				obs.ListOf(c.Sizes[1:], sizesCoq), outcomeCoq(first), obs.N(uint64(first.Consumed)), obs.N(first.Alloc))
+				obs.ListOf(c.Sizes[1:], sizesCoq), outcomeCoq(first), obs.N(uint64(first.Consumed)), obs.N(minAlloc))
 		}
 		res.Sig = fmt.Sprint("wf", c.Buf, hash(input))
 		res.Nontrivial = true
@@ -274,8 +278,12 @@ func run(ci any) (res obs.Result) {
 			first = resp.DecodeSandboxed(c.Input, c.Buf, c.Sizes[len(c.Sizes)-1])
 			res.Kind = "mal-sandboxed"
 		} else {
+			minAlloc := ^uint64(0)
 			for k, sizes := range c.Sizes {
 				o := resp.Decode(c.Input, c.Buf, sizes)
+				if o.Alloc < minAlloc {
+					minAlloc = o.Alloc
+				}
 				if k == 0 {
 					first = o
 				} else if o.Key() != first.Key() && res.Oracle == "" {
@@ -286,6 +294,9 @@ func run(ci any) (res obs.Result) {
 				if o.Status == "panic" {
 					first = o
 				}
+			}
+			if first.Status != "panic" && first.Alloc <= allocLimit(len(c.Input)) {
+				first.Alloc = minAlloc // for the model's envelope: the quietest of the runs
 			}
 		}
 		switch {
